@@ -270,6 +270,36 @@ pub fn scenarios(prop: Prop) -> Vec<StreamTrace> {
             }
         }
     }
+    // 12. alignment of frames inside the buffer: a frame ENDING exactly at a power-of-two offset
+    //     (and one byte before / after it), buffers whose length is a multiple of 8 .. 4096
+    for k in 3..=16u32 {
+        let end = 1usize << k;
+        for (di, delta) in [0isize, -1, 1].iter().enumerate() {
+            let f = frame_piece(if k < 5 { 0 } else { 9 }, 0, 0x47);
+            let flen = f.bytes.len();
+            let target_end = (end as isize + delta) as usize;
+            if target_end < flen {
+                continue;
+            }
+            let pad = target_end - flen;
+            let v = ((k as usize + di) % vmax as usize) as u8 + 1;
+            let mut ps = vec![];
+            if pad > 0 {
+                ps.push(piece("noise:zeros", "noise", vec![0u8; pad], false));
+            }
+            ps.push(f);
+            // total buffer length: the next multiple of `end`, filled with a second frame + zeros
+            let f2 = frame_piece(1, 0, 0x21);
+            let used = target_end + f2.bytes.len();
+            let total = ((used + end - 1) / end) * end;
+            ps.push(f2);
+            if total > used {
+                ps.push(piece("noise:zeros", "noise", vec![0u8; total - used], false));
+            }
+            let cuts = if k <= 10 { vec![end / 2, end] } else { vec![end] };
+            add(build(prop, &format!("frame_ends_at_2^{}{:+}", k, delta), ps, cuts, vec![], v, "aimed"), &mut out);
+        }
+    }
     // 9. receiver restarts in the middle of a frame
     for v in 1..=vmax {
         let ps = vec![frame_1005(), frame_piece(30, 0, 0x21), frame_1005(), frame_piece(0, 0, 0)];
